@@ -18,7 +18,7 @@ verus! {
 pub enum ControlType { PagedResults, PostReadResp, PreReadResp, SyncDone, SyncState, ManageDsaIt, MatchedValues }
 pub struct RawControl { pub ctype: String, pub crit: bool, pub val: Option<Vec<u8>> }
 pub struct Control(pub Option<ControlType>, pub RawControl);
-pub enum Types { Eoc = 0, Boolean = 1, Integer = 2, BitString = 3, OctetString = 4, Null = 5, Enumerated = 10, Sequence = 16, Set = 17 }
+//@include contracts/shared/lift_types_enum.rs
 
 // lazy_static CONTROLS: HashMap<&'static str, ControlType> -- known-OID tagging is a table look-up whose
 // contents are NOT decided here (uninterpreted function of the OID string)
